@@ -773,6 +773,8 @@ func guardedNoQuote(rs relSet, v ssa.Value) bool {
 		rs["strings.Contains("+k+",\"\\\"\") == false"] || rs["false == strings.Contains("+k+",\"\\\"\")"]
 }
 
+var sourceTextDepth int
+
 func isSourceText(v ssa.Value) (string, bool) {
 	for _, o := range origins(v) {
 		if c, ok := o.(*ssa.Call); ok {
@@ -784,6 +786,23 @@ func isSourceText(v ssa.Value) (string, bool) {
 				return "printed Go source", true
 			case n == "(*go/ast.CommentGroup).Text":
 				return "text of a Go comment", true
+			}
+			// a repository helper that hands such text on (its returned value is source text): the call
+			// stands for that text, and the facts its body establishes before returning hold after the call
+			if cal := calleeOf(&c.Call); cal != nil && cal.Pkg != nil && InRepo(cal.Pkg.Pkg.Path()) && len(cal.Blocks) > 0 && len(cal.Blocks) <= 12 && sourceTextDepth < 2 {
+				sourceTextDepth++
+				what, found := "", false
+				for _, b := range cal.Blocks {
+					if ret, ok := b.Instrs[len(b.Instrs)-1].(*ssa.Return); ok && len(ret.Results) == 1 {
+						if w, ok := isSourceText(ret.Results[0]); ok {
+							what, found = w, true
+						}
+					}
+				}
+				sourceTextDepth--
+				if found {
+					return what + " (through " + cal.Name() + ")", true
+				}
 			}
 		}
 		if ld, ok := o.(*ssa.UnOp); ok {
